@@ -78,18 +78,23 @@ def randIntn (n : Int) (cancelled : Bool) (s : Stream) : Res (Nat × Stream) :=
   else randInt63 n.toNat cancelled s
 
 /-- the second loop of crypto.Sample: `m` remaining iterations starting at index `i`;
-    returns the `pick(dst, src)` calls in order -/
-def sampleLoop (k : Nat) (cancelled : Bool) : Nat → Nat → Stream → Res (List (Nat × Nat) × Stream)
+    returns the `pick(dst, src)` calls in order. `rnd` is crypto.RandIntn (a parameter only
+    to keep the definition's unfolding lemmas small; see `sampleLoop`). -/
+def sampleLoopWith (rnd : Int → Bool → Stream → Res (Nat × Stream)) (k : Nat) (cancelled : Bool) :
+    Nat → Nat → Stream → Res (List (Nat × Nat) × Stream)
   | 0, _, s => .ok ([], s)
   | m + 1, i, s =>
-    match randIntn ((i : Int) + 1) cancelled s with
+    match rnd ((i : Int) + 1) cancelled s with
     | .ok (j, s') =>
-      match sampleLoop k cancelled m (i + 1) s' with
+      match sampleLoopWith rnd k cancelled m (i + 1) s' with
       | .ok (ps, s'') => .ok ((if j < k then [(j, i)] else []) ++ ps, s'')
       | .err e => .err e
       | .panic p => .panic p
     | .err e => .err e
     | .panic p => .panic p
+
+def sampleLoop (k : Nat) (cancelled : Bool) : Nat → Nat → Stream → Res (List (Nat × Nat) × Stream) :=
+  sampleLoopWith randIntn k cancelled
 
 /-- crypto.Sample over Go ints: result `(k', picks, rest of stream)` where picks is the
     sequence of `pick(dst, src)` calls -/
